@@ -13,7 +13,7 @@ _HOOKED = {}
 class Observation:
   """Everything observed for one code object."""
   __slots__ = ("qualname", "firstlineno", "ops_line", "n_ops", "blocks", "order", "ops", "items_line",
-               "real_ops_line", "version", "error", "kind", "items", "host_code", "xleg")
+               "real_ops_line", "version", "error", "kind", "items", "host_code", "xleg", "pxb", "apbt_v")
 
 
 def install_hooks():
@@ -51,9 +51,12 @@ def install_hooks():
     return orig_mol(offset_to_op, python_version)
 
   def apbt(bytecode):
+    # push_exc_block marks (set by opcodes._add_setup_except) are an INPUT of add_pop_block_targets
+    pxb = [k for k, o in enumerate(bytecode) if o.push_exc_block]
     orig_apbt(bytecode)
-    # snapshot BEFORE compute_order mutates .target in the merge pass
-    log["apbt"].append((list(bytecode), abstract_ops(bytecode), real_ops_line(bytecode)))
+    # snapshot BEFORE compute_order mutates .target in the merge pass; the block_target clauses are judged now too
+    log["apbt"].append((list(bytecode), abstract_ops(bytecode), real_ops_line(bytecode), pxb,
+                        apbt_clauses(bytecode, pxb, opcodes)))
 
   def order_nodes(nodes):
     nodes_before = list(nodes)
@@ -169,6 +172,147 @@ def model_final_targets(ops_line, retarget):
 def real_preds(nodes, cfg_utils):
   pm = cfg_utils.compute_predecessors(nodes)
   return "P" + ";".join("%d:%s" % (n.id, ",".join(map(str, sorted(p.id for p in pm[n])))) for n in nodes)
+
+
+def block_target_oracle(ops, opcodes):
+  """Clauses about Opcode.block_target, evaluated directly on a real opcode list after add_pop_block_targets
+  (independent of the model): only POP_BLOCK / RAISE_VARARGS / BREAK_LOOP carry one; it is an opcode of the list and
+  the .target of a block-pushing opcode (SETUP_FINALLY / SETUP_EXCEPT_311 / any PUSHES_BLOCK op) of the list - hence a
+  jump target, which _split_bytecode turns into a block start."""
+  v = []
+  pos = {id(o) for o in ops}
+  setup_targets = {id(s.target) for s in ops
+                   if s.target is not None and (s.pushes_block() or isinstance(s, (opcodes.SETUP_FINALLY, opcodes.SETUP_EXCEPT_311)))}
+  for i, o in enumerate(ops):
+    bt = o.block_target
+    if bt is None:
+      continue
+    if not isinstance(o, (opcodes.POP_BLOCK, opcodes.RAISE_VARARGS, opcodes.BREAK_LOOP)):
+      v.append(("block-target-on-unexpected-op", i, o.name))
+    if id(bt) not in pos:
+      v.append(("block-target-outside-code", i, o.name))
+    elif id(bt) not in setup_targets:
+      v.append(("block-target-is-not-the-target-of-a-block-op", i, o.name, bt.name))
+  return v
+
+
+def reference_block_targets(ops, pxb, opcodes):
+  """A declarative re-derivation of what add_pop_block_targets must compute, written as a RECURSIVE depth-first walk
+  over immutable (op, stack) pairs (no todo list, no in-place tuple surgery): the successors of an op are visited
+  in the order next, then jump/handler target, then BREAK_LOOP exit - the order in which the LIFO todo list of the
+  implementation pops them.  Returns the list of block_target indices (-1 = None) or the name of the exception class
+  the implementation must raise."""
+  import sys  # pylint: disable=import-outside-toplevel
+  setup_exc = (opcodes.SETUP_FINALLY, opcodes.SETUP_EXCEPT_311)
+  bt = {}
+  seen = set()
+  pxs = set(pxb)
+
+  class Raised(Exception):
+    pass
+
+  def visit(op, stack):
+    # iterative driver of the recursive definition (Python recursion depth is too small for long code objects)
+    work = [(op, stack)]
+    while work:
+      op, stack = work.pop()
+      if op is None:
+        raise Raised("AttributeError")
+      if id(op) in seen:
+        continue
+      seen.add(id(op))
+      succ = []          # in visiting order
+      if isinstance(op, opcodes.POP_BLOCK):
+        if not stack:
+          raise Raised("AssertionError")
+        bt[op.index] = stack[-1].target
+        stack = stack[:-1]
+      elif isinstance(op, opcodes.RAISE_VARARGS):
+        inner = [b for b in stack if isinstance(b, setup_exc)]
+        if inner:
+          bt[op.index] = inner[-1].target
+      elif isinstance(op, opcodes.BREAK_LOOP):
+        loops = [k for k, b in enumerate(stack) if isinstance(b, opcodes.SETUP_LOOP)]
+        if loops:
+          k = loops[-1]
+          bt[op.index] = stack[k].target
+          if stack[k].target is op:
+            raise Raised("AssertionError")
+          succ.append((stack[k].target, stack[:k]))
+      elif isinstance(op, setup_exc):
+        succ.append((op.target, stack))
+        stack = stack + (op,)
+      elif op.pushes_block():
+        if op.target is None:
+          raise Raised("AssertionError")
+        stack = stack + (op,)
+      elif op.does_jump() and op.target is not None:
+        if op.index in pxs:
+          s = op.target
+          while not isinstance(s, setup_exc):
+            if s.prev is None:
+              raise Raised("AttributeError")
+            s = s.prev
+          stack = stack + (s,)
+        succ.append((op.target, stack))
+      if not op.no_next():
+        if op.next is None:
+          raise Raised("AssertionError")
+        succ.insert(0, (op.next, stack))
+      # depth-first, first successor first
+      for x in reversed(succ):
+        work.append(x)
+  del sys
+  if not ops:
+    return []
+  try:
+    visit(ops[0], ())
+  except Raised as e:
+    return str(e)
+  return [(-1 if bt.get(k) is None else bt[k].index) for k in range(len(ops))]
+
+
+def apbt_clauses(ops, pxb, opcodes):
+  """block_target clauses + comparison with the declarative block-stack walk, on a list add_pop_block_targets has
+  just processed (must run before compute_order's merge pass rewrites .target fields)."""
+  v = block_target_oracle(ops, opcodes)
+  want = reference_block_targets(ops, pxb, opcodes)
+  got = [_i(o.block_target) for o in ops]
+  if want != got:
+    k0 = next((i for i, (x, y) in enumerate(zip(want, got)) if x != y), 0) if isinstance(want, list) else 0
+    v.append(("block-targets-differ-from-the-block-stack-walk", ops[k0].name if ops else "?"))
+  return v
+
+
+def predecessor_oracle(nodes, cfg_utils):
+  """compute_predecessors(nodes)[n] must be exactly {m in nodes | n is reachable from m along outgoing edges}
+  (reflexive), computed here by one forward search per node."""
+  v = []
+  try:
+    pm = cfg_utils.compute_predecessors(nodes)
+  except Exception as e:  # pylint: disable=broad-except
+    return [("compute_predecessors-raised", type(e).__name__)]
+  node_ids = {id(n) for n in nodes}
+  want = {id(n): set() for n in nodes}
+  for m in nodes:
+    seen = {id(m)}
+    todo = [m]
+    while todo:
+      x = todo.pop()
+      for s in x.outgoing:
+        if id(s) not in seen:
+          seen.add(id(s))
+          todo.append(s)
+    for k in seen:
+      if k in want:
+        want[k].add(id(m))
+  for n in nodes:
+    got = {id(p) for p in pm.get(n, ())}
+    if got != want[id(n)]:
+      v.append(("predecessors-not-the-reachability-relation", n.id, len(got - want[id(n)]), len(want[id(n)] - got)))
+      break
+  del node_ids
+  return v
 
 
 def oracle(ops, nodes, order, opcodes):
@@ -542,8 +686,10 @@ def observe_source(src, filename):
         walk(c)
   walk(ordered)
   obs = []
-  for k, ((items_line, ver, raw_items, xleg), (ops, ops_line, rol), (nodes, order)) in enumerate(zip(log["mol"], log["apbt"], log["order"])):
+  for k, ((items_line, ver, raw_items, xleg), (ops, ops_line, rol, pxb, apbt_v), (nodes, order)) in enumerate(zip(log["mol"], log["apbt"], log["order"])):
     ob = Observation()
+    ob.pxb = pxb
+    ob.apbt_v = apbt_v
     ob.qualname, ob.firstlineno, ob.kind = names[k] if k < len(names) else ("?", 0, "?")
     ob.version = ver
     ob.ops = ops
